@@ -93,10 +93,10 @@ def add_features_calculator(mod: fx.GraphModule, extra_rules: List[Callable] = [
             input_shape = n.all_input_nodes[0].meta['tensor_meta'].shape
             start_dim = try_get_args(n, mod, 1, 'start_dim', 0)
             end_dim = try_get_args(n, mod, 2, 'end_dim', -1)
-            assert start_dim != 0 and len(input_shape) - start_dim != 0, \
+            assert start_dim != 0 and len(input_shape) + start_dim != 0, \
                 "Flattening the batch not supported"
             # if flatten includes the channels
-            if start_dim == 1 or len(input_shape) - start_dim == 1:
+            if start_dim == 1 or len(input_shape) + start_dim == 1:
                 # end_dim is inclusive
                 flattened_size = math.prod(input_shape[2:end_dim + 1 if end_dim != -1 else None])
                 n.meta['features_calculator'] = FlattenFeaturesCalculator(ifc, int(flattened_size))
@@ -124,9 +124,9 @@ def add_features_calculator(mod: fx.GraphModule, extra_rules: List[Callable] = [
             # TODO: add support for no dim by looking at which dimensions are 1
             if dim is None:
                 raise ValueError("Squeeze without dim not supported")
-            assert dim != 0 and len(input_shape) - dim != 0, \
+            assert dim != 0 and len(input_shape) + dim != 0, \
                 "Squeezing the batch is not supported"
-            if dim == 1 or len(input_shape) - dim == 1:
+            if dim == 1 or len(input_shape) + dim == 1:
                 flattened_size = input_shape[2]
                 n.meta['features_calculator'] = FlattenFeaturesCalculator(ifc, flattened_size)
             else:
@@ -197,10 +197,10 @@ def associate_input_features(mod: fx.GraphModule):
         elif prev.meta['flatten']:
             input_shape = prev.all_input_nodes[0].meta['tensor_meta'].shape
             start_dim = try_get_args(prev, mod, 1, 'start_dim', 0)
-            assert start_dim != 0 and len(input_shape) - start_dim != 0, \
+            assert start_dim != 0 and len(input_shape) + start_dim != 0, \
                 "Flattening the batch not supported"
             # if flatten includes the channels
-            if start_dim == 1 or len(input_shape) - start_dim == 1:
+            if start_dim == 1 or len(input_shape) + start_dim == 1:
                 n.meta['input_features_set_by'] = prev
             else:
                 n.meta['input_features_set_by'] = prev.meta['input_features_set_by']
@@ -218,9 +218,9 @@ def associate_input_features(mod: fx.GraphModule):
             dim = try_get_args(prev, mod, 1, 'dim', None)
             if dim is None:
                 raise ValueError("Squeeze without dim not supported")
-            assert dim != 0 and len(input_shape) - dim != 0, \
+            assert dim != 0 and len(input_shape) + dim != 0, \
                 "Squeezing the batch is not supported"
-            if dim == 1 or len(input_shape) - dim == 1:
+            if dim == 1 or len(input_shape) + dim == 1:
                 n.meta['input_features_set_by'] = prev
             else:
                 n.meta['input_features_set_by'] = prev.meta['input_features_set_by']
